@@ -5,7 +5,7 @@ import ast
 
 from . import engine as E
 from . import symnp as np
-from .pdcore import (C_EQ, NAN, Index, MultiIndex, all_concrete, default_index, hashable_key, infer_dtype, is_na,
+from .pdcore import (INT_BITS, C_EQ, NAN, Index, MultiIndex, all_concrete, default_index, hashable_key, infer_dtype, is_na,
                      same_label, sort_positions)
 from .pdframe import DataFrame
 from .pdseries import _STICKY, Series, _is_listlike
@@ -391,13 +391,19 @@ def merge(left, right, how="inner", on=None, left_on=None, right_on=None, left_i
             out[name] = [left._data[c][i] if i is not None else rkeys[j][jpos] for i, j in pairs]
         else:
             out[name] = [left._data[c][i] if i is not None else NAN for i, j in pairs]
-        dts[name] = left._dt.get(c) if left._dt.get(c) in _STICKY else None
+        dts[name] = left._dt.get(c) if (left._dt.get(c) in _STICKY or (
+            left._dt.get(c) in INT_BITS and all(i is not None for i, j in pairs))) else None
+        if not pairs and dts[name] is None:
+            dts[name] = left._dt.get(c) or infer_dtype(left._data[c])
     for c in right._data:
         if c in same_named:
             continue
         name = c + suffixes[1] if c in overlap else c
         out[name] = [right._data[c][j] if j is not None else NAN for i, j in pairs]
-        dts[name] = right._dt.get(c) if right._dt.get(c) in _STICKY else None
+        dts[name] = right._dt.get(c) if (right._dt.get(c) in _STICKY or (
+            right._dt.get(c) in INT_BITS and all(j is not None for i, j in pairs))) else None
+        if not pairs and dts[name] is None:
+            dts[name] = right._dt.get(c) or infer_dtype(right._data[c])
     if left_index and right_index:
         idx = Index([left.index._vals[i] if i is not None else right.index._vals[j] for i, j in pairs],
                     name=left.index.name)
